@@ -74,15 +74,15 @@ IsEvent(name) == l <= Len(Trace) /\ Trace[l].ev = name /\ l' = l + 1
 DumpOK(e, stored) ==
   /\ Chk("dump_count", Len(e.dump) = (IF stored THEN 1 ELSE 0) /\ e.other = 0)
   /\ Chk("dump_payload", \A i \in DOMAIN e.dump : SamePL(e.dump[i].pl))
-  /\ Chk("dump_headers", \A i \in DOMAIN e.dump : Pairs(e.dump[i].h) = J.exp /\ NoDup(e.dump[i].h))
   /\ Chk("dump_sensitive", Ingress => \A i \in DOMAIN e.dump : NoSens(e.dump[i].h) /\ e.dump[i].leak = <<>>)
+  /\ Chk("dump_headers", \A i \in DOMAIN e.dump : Pairs(e.dump[i].h) = J.exp /\ NoDup(e.dump[i].h))
 
 \* what a channel handed out
 ObsOK(r) ==
   /\ Chk("encoding", r.enc = "")          \* payload_b64 is standard base64 (with padding)
   /\ Chk("payload", r.n >= 1 => SamePL(r.pl))
-  /\ Chk("headers", r.n >= 1 => Pairs(r.h) = J.exp /\ NoDup(r.h))
   /\ Chk("sensitive", Ingress => NoSens(r.h) /\ r.leak = <<>>)
+  /\ Chk("headers", r.n >= 1 => Pairs(r.h) = J.exp /\ NoDup(r.h))
 
 \* the harness' companion message (batch requests that find two ready messages): also unchanged
 KOK(k) == k.n >= 1 => /\ k.pl.d = k.wpl.d /\ k.pl.n = k.wpl.n
@@ -105,8 +105,8 @@ TraceSubmit ==
         /\ Chk("refused_not_stored", ~ok => e.dump = <<>> /\ e.other = 0)
         /\ Chk("stored_count", Len(e.dump) = (IF J.accept THEN 1 ELSE 0) /\ e.other = 0)
         /\ Chk("stored_payload", \A i \in DOMAIN e.dump : SamePL(e.dump[i].pl))
-        /\ Chk("stored_headers", \A i \in DOMAIN e.dump : Pairs(e.dump[i].h) = J.exp /\ NoDup(e.dump[i].h))
         /\ Chk("stored_sensitive", Ingress => \A i \in DOMAIN e.dump : NoSens(e.dump[i].h) /\ e.dump[i].leak = <<>>)
+        /\ Chk("stored_headers", \A i \in DOMAIN e.dump : Pairs(e.dump[i].h) = J.exp /\ NoDup(e.dump[i].h))
         /\ ms' = IF ok THEN "queued" ELSE "refused"
   /\ UNCHANGED J
 
@@ -138,9 +138,9 @@ TracePush ==
          r == e.r
      IN /\ Chk("available", ms = "queued" => r.n = 1 /\ r.err = "")
         /\ Chk("payload", r.n >= 1 => SamePL(r.pl))
+        /\ Chk("sensitive", Ingress => NoSens(r.h) /\ NoSens(r.wh) /\ r.leak = <<>> /\ r.wleak = <<>>)
         /\ Chk("pushhdr", r.n >= 1 => J.exp \subseteq Pairs(r.h))
         /\ Chk("companion", KOK(r.k))
-        /\ Chk("sensitive", Ingress => NoSens(r.h) /\ NoSens(r.wh) /\ r.leak = <<>> /\ r.wleak = <<>>)
         /\ DumpOK(e, Kept)
         /\ ms' = IF r.n >= 1 THEN After(e.a.outcome) ELSE ms
   /\ UNCHANGED J
